@@ -515,15 +515,6 @@ Proof. unfold opt_of. intros ->. reflexivity. Qed.
 
 Definition FRat (r : term) : Prop := forall u, clean r = true -> Inv u -> good u (fst (from_reflect r u)) r (snd (from_reflect r u)).
 
-Lemma FR_unary (mk : term -> term) e (body : univ -> univ * nat) :
-  (forall t, clean (mk t) = clean t) ->
-  FRat e ->
-  (forall u1 i x, get u1 i = Some x -> ogt x = e -> ort x = e -> oopt x = ODefault ->
-     (let '(u1', i') := (u1, i) in body u1) = maketype4 u1 (mk e) (mk e) ODefault) ->
-  forall u, clean (mk e) = true -> Inv u ->
-  (forall u1 i, from_reflect e u = (u1, i) -> True) -> True.
-Proof. auto. Qed.
-
 Lemma FR_ptr e : FRat e -> FRat (TPtr e).
 Proof.
   intros IH u Hc HI. simpl in Hc. change (from_reflect (TPtr e) u) with
@@ -590,7 +581,7 @@ Proof.
 Qed.
 
 (* terms without func/struct components: FromReflectType meets its specification (the func/struct cases, whose
-   components are lists, are exercised by the correspondence runs only) *)
+   components are lists, are proved in Proof2.v: FR_func, FR_struct, from_reflect_spec : FRspec) *)
 Fixpoint simple (t : term) : bool :=
   match t with
   | TBasic _ | TNamed _ => true
